@@ -72,8 +72,26 @@ func kindOf(v any) int {
 	}
 }
 
-func c05Eq(a, b any) Case {
-	na, nb := anyToNode(a), anyToNode(b)
+// build a node along different construction routes: builder API with fresh leaves, the decoder
+// (FromMap: nulls are the shared nilLeaf), or a clone of either
+func nodeVia(v any, route int) dom.Node {
+	var n dom.Node
+	switch route % 3 {
+	case 0:
+		n = anyToNode(v)
+	default:
+		n = dom.Builder().FromMap(map[string]any{"w": v}).Child("w")
+	}
+	if route%3 == 2 {
+		n = n.Clone()
+	}
+	return n
+}
+
+func c05Eq(a, b any) Case { return c05EqVia(a, b, 0, 0) }
+
+func c05EqVia(a, b any, ra, rb int) Case {
+	na, nb := nodeVia(a, ra), nodeVia(b, rb)
 	var ab, ba, aa bool
 	var fail []string
 	if pn := guard(func() { ab = na.Equals(nb); ba = nb.Equals(na); aa = na.Equals(na) }); pn != "" {
@@ -89,7 +107,7 @@ func c05Eq(a, b any) Case {
 	if !aa {
 		fail = append(fail, "Equals is not reflexive")
 	}
-	return Case{Kind: "equals", Desc: map[string]any{"a": a, "b": b, "a.Equals(b)": ab, "b.Equals(a)": ba},
+	return Case{Kind: "equals", Desc: map[string]any{"a": a, "b": b, "a.Equals(b)": ab, "b.Equals(a)": ba, "routes": []int{ra % 3, rb % 3}},
 		Coq: "CEq " + gNode(a) + " " + gNode(b) + " " + gBool(ab), Fail: fail,
 		Nontrivial: !want && kindOf(a) == kindOf(b) && kindOf(a) != 0}
 }
@@ -187,7 +205,7 @@ func randomEdit(r *rand.Rand, n dom.Node) string {
 }
 
 func c05Clone(r *rand.Rand, a any, editClone bool) Case {
-	na := anyToNode(a)
+	na := nodeVia(a, r.Intn(2))
 	var cl dom.Node
 	var fail []string
 	if pn := guard(func() { cl = na.Clone() }); pn != "" {
@@ -278,17 +296,17 @@ func init() {
 			all := enumValues(maxSz)
 			e := idx - 4
 			if e >= 0 && e < len(all)*len(all) {
-				return c05Eq(all[e/len(all)], all[e%len(all)])
+				return c05EqVia(all[e/len(all)], all[e%len(all)], idx, idx/3)
 			}
 			o := defaultOpts()
 			a := genVal(r, o, 1, false)
 			switch r.Intn(10) {
 			case 0, 1:
-				return c05Eq(a, mutateVal(r, a, o))
+				return c05EqVia(a, mutateVal(r, a, o), r.Intn(3), r.Intn(3))
 			case 2:
-				return c05Eq(a, a)
+				return c05EqVia(a, a, r.Intn(3), r.Intn(3))
 			case 3:
-				return c05Eq(a, genVal(r, o, 1, false))
+				return c05EqVia(a, genVal(r, o, 1, false), r.Intn(3), r.Intn(3))
 			case 4:
 				b := mutateVal(r, a, o)
 				if r.Intn(2) == 0 {
